@@ -461,11 +461,28 @@ class C20(PropertyCheck):
         "QipVerif.C20.equal_width_counterexample_inside",
         "QipVerif.C20.equal_width_counterexample_below",
         "QipVerif.C20.equal_width_refuted",
+        "QipVerif.C20.labels_in_order",
+        "QipVerif.C20.control_outside",
+        "QipVerif.C20.links_reach_control",
+        "QipVerif.C20.links_reach_swap",
+        "QipVerif.C20.links_reach_measure",
     ]
     technique = ("Lean 4 proof (invariants of the renderer's append-only row state, by induction over the circuit) "
                  "+ model/implementation correspondence with exact string equality")
-    level_text = ""
-    level_note = ""
+    level_text = ("Lean 4 theorems about an executable model of TextRenderer (all of _add_wire_labels, _get_xskip, _manage_layers, "
+                  "_adjust_layer_pad, _draw_*/_update_*, layout, print order; options gate_pad, wire_label, end_wire_ext, align_layer), "
+                  "for every number of wires, every circuit and every style: three rows per wire in the stated order with the wire's "
+                  "label at the start of its middle row; len top = len mid = len bot on every wire after every append; the boxed labels "
+                  "read off a qubit's middle row are, in circuit order, the labels of the elements boxed on it; and, for circuits meeting "
+                  "the decidable hypothesis circOk, the drawing succeeds, all rows have one width, and every control / SWAP / measurement "
+                  "link is one unbroken column from node to box mark. The clause 'all rows of equal width' is REFUTED for the code as it "
+                  "is (kernel-decided counter-examples, reproduced on the implementation; known finding). The model is tied to the code by "
+                  "exact string equality of every printed row: exhaustive over every placed single element on <= 4 qubits, random and "
+                  "malformed circuits beyond.")
+    level_note = ("Partial: equal_width holds only under circOk (boxes with controls have contiguous targets; one-target measurements; "
+                  "end_wire_ext >= 0; a label for every wire). Classical controls are not drawn by the text renderer at all, so there is "
+                  "no link to state for them. Trusted: Lean kernel; Model/Render.lean as transcription (validated by the correspondence); "
+                  "the harness py/props/c20.py.")
     trusted_base = [
         "Lean 4.33 kernel; axioms propext, Classical.choice, Quot.sound",
         "lean/QipVerif/Model/Render.lean as a transcription of text_renderer.py / base_renderer.py "
@@ -551,10 +568,10 @@ class C20(PropertyCheck):
         self._compare(ctx, res, [{"N": 3, "C": 1, "style": {}, "ops": lib}] +
                       [{"N": 3, "C": 1, "style": {"gate_pad": 1}, "ops": [g]} for g in lib], "library")
         # 2. random circuits (the class of the known finding included: the model has the defect too)
-        n = 6000 if ctx.thorough else 900
+        n = 60000 if ctx.thorough else 6000
         self._compare(ctx, res, [rand_circuit(rng, wild=False, allow_gap=True) for _ in range(n)], "random")
         # 3. malformed / unusual stream
-        n = 3000 if ctx.thorough else 500
+        n = 25000 if ctx.thorough else 2500
         self._compare(ctx, res, [rand_circuit(rng, wild=True, maxN=4, maxC=2, maxops=5) for _ in range(n)], "wild")
         # 4. entry points: TextRenderer(qc).layout() prints the same, save() writes the same
         for _ in range(40 if ctx.thorough else 12):
@@ -619,7 +636,7 @@ class C20(PropertyCheck):
                 f, d = self.oracle_replay(ctx, w)
                 if f:
                     yield w, d
-        for _ in range(1500 if ctx.thorough else 300):
+        for _ in range(15000 if ctx.thorough else 1500):
             w = rand_circuit(ctx.rng, wild=False, allow_gap=False, maxops=rng_small(ctx.rng))
             if covered(w):
                 f, d = self.oracle_replay(ctx, w)
